@@ -44,11 +44,24 @@ def plan(tier, seed):
     # every configuration once more with long fixed workloads (state that only breaks after hundreds of packets)
     nlong = explore.add_long(cfgs, 200 if quick else 600, burst=400)
     ndebug = explore.add_debug_variants(cfgs)      # the same with every element constructed with debug=True
+    # rates and sizes whose quotients are not binary fractions (10 Mbit/s with 1500-byte packets; 12 bit/s): instants are
+    # compared with a relative tolerance of 1e-9, a decision that falls within that distance of its threshold ends the
+    # evaluation of the run - except where the reference level is exactly the bucket size because the refill overshot it
+    for (cir, cbs, pir, pbs) in ((10e6, 1500, None, None), (10e6, 1500, 20e6, 3000), (2.5e6, 1500, None, None)):
+        cfgs.append(dict(kind="tr", cir=cir, cbs=cbs, pir=pir, pbs=pbs, N=n, gaps=["S", 0.0005, 0.002, 1], sizes=[750, 1500], order=0, approx=1))
+    cfgs.append(dict(kind="tr", cir=12, cbs=2, pir=None, pbs=None, N=n, gaps=["S", 1, 2, 8], sizes=[1, 2, 4], order=0, approx=1))
+    cfgs.append(dict(kind="tr", cir=12, cbs=3, pir=40, pbs=4, N=n, gaps=["S", 1, 2, 8], sizes=[1, 2, 4], order=0, approx=1))
+    cfgs.append(dict(kind="tb", rate=12, bucket=2, peak=None, N=n, gaps=["S", 1, 2, 8], sizes=[1, 2, 4], order=0, approx=1))
+    cfgs.append(dict(kind="tb", rate=10e6, bucket=1500, peak=40e6, N=n, gaps=["S", 0.0005, 0.002, 1], sizes=[750, 1500], order=0, approx=1))
     # an empty committed bucket (CBS 0) is a legal parameterisation: nothing is ever green / every packet waits
     cfgs.append(dict(kind="tr", cir=8, cbs=0, pir=16, pbs=4, N=n, gaps=["S", 1, 2, 8], sizes=[1, 2, 4], order=0))
     cfgs.append(dict(kind="tr", cir=8, cbs=0, pir=None, pbs=None, N=n, gaps=["S", 1, 2, 8], sizes=[1, 2, 4], order=0))
     return {"cfgs": cfgs, "budget": None,
             "bound": ("%d long fixed workloads (periodic arrival patterns); %d configurations repeated with debug=True; " % (nlong, ndebug)) + ("N<=%d; TokenBucket rate {8,16} x bucket {1,2,3} x peak {None,16,32}; TwoRate CIR 8, CBS {2,3}, PIR {None,16}, PBS {2,4}" % n)}
+
+
+def near(x, y):
+    return abs(Fr(x) - Fr(y)) <= Fr(1, 10 ** 9) * max(1, abs(Fr(y)))
 
 
 def bucket_release(level, upd, head, size, rate, cap):
@@ -120,31 +133,40 @@ def check_tb(net, cfg, res, tag):
     debits = []
     for a in net.arrs:
         head = Fr(a.t) if prev_rel is None else max(Fr(a.t), prev_rel)
+        if cfg.get("approx"):
+            raw = level + Fr(rate) * (head - upd) / 8
+            if not raw > cap * (1 + Fr(1, 10 ** 6)) and near(a.size, min(cap, raw)):
+                return          # the decision 'enough tokens?' is within rounding distance of its threshold
+            prev_rel_obs = Fr(a.dep.t)
         g, level, waited = bucket_release(level, upd, head, a.size, rate, cap)
         upd = g
-        rel = g + (Fr(8 * a.size, peak) if peak else 0)
+        rel = g + ((Fr(8 * a.size) / Fr(peak)) if peak else 0)
         if waited:
             res.nontrivial = True
         res.ev("C11.tb.time")
-        if Fr(a.dep.t) != rel:
+        if (Fr(a.dep.t) != rel) if not cfg.get("approx") else (abs(a.dep.t - float(rel)) > 1e-9 * max(1.0, float(rel))):
             res.bad("C11.tb.time", "%s:peak=%s:released-%s" % (tag, "set" if peak else "None", "early" if Fr(a.dep.t) < rel else "late"),
                     "packet %d size %d entered %r: released %r, reference %s (head %s, tokens short: %s)" % (a.i, a.size, a.t, a.dep.t, rel, head, waited))
             return
-        debits.append((Fr(a.dep.t) - (Fr(8 * a.size, peak) if peak else 0), a.size))
+        debits.append((Fr(a.dep.t) - ((Fr(8 * a.size) / Fr(peak)) if peak else 0), a.size))
         prev_rel = rel
+        if cfg.get("approx"):
+            # follow the observed instants (they are within tolerance): errors must not accumulate in the reference
+            prev_rel = Fr(a.dep.t)
+            upd = prev_rel - ((Fr(8 * a.size) / Fr(peak)) if peak else 0)
     # conformance and peak spacing are implied by the exact law, but are evaluated independently on the observed instants
     for i in range(len(debits)):
         tot = 0
         for j in range(i, len(debits)):
             tot += debits[j][1]
             res.ev("C11.tb.conform")
-            if tot > max(cap, debits[i][1]) + Fr(rate) * (debits[j][0] - debits[i][0]) / 8:
+            if tot > (max(cap, debits[i][1]) + Fr(rate) * (debits[j][0] - debits[i][0]) / 8) * (1 + (Fr(1, 10 ** 9) if cfg.get("approx") else 0)):
                 res.bad("C11.tb.conform", tag + ":burst-exceeds-bucket-plus-rate", "departures %d..%d" % (i, j))
                 return
     if peak:
         for k in range(1, len(net.arrs)):
             res.ev("C11.tb.peak")
-            if Fr(net.arrs[k].dep.t) - Fr(net.arrs[k - 1].dep.t) < Fr(8 * net.arrs[k].size, peak):
+            if Fr(net.arrs[k].dep.t) - Fr(net.arrs[k - 1].dep.t) < (Fr(8 * net.arrs[k].size) / Fr(peak)) * (1 - (Fr(1, 10 ** 9) if cfg.get("approx") else 0)):
                 res.bad("C11.tb.peak", tag + ":departures-closer-than-peak-spacing", "packets %d,%d" % (k - 1, k))
                 return
 
@@ -162,6 +184,22 @@ def check_tr(net, cfg, res, tag, colours):
     for k, a in enumerate(net.arrs):
         head = Fr(a.t) if prev_rel is None else max(Fr(a.t), prev_rel)
         col = colours[k]
+        approx = cfg.get("approx")
+
+        def exact_or_far(size, raw, cap):
+            """the comparison of size with min(cap, raw) is decided beyond rounding doubt"""
+            if raw > cap * (1 + Fr(1, 10 ** 6)):
+                return size != cap or True        # the level is exactly cap in any float implementation
+            return not near(size, raw)
+        if approx:
+            if pir:
+                ok = (exact_or_far(a.size, plevel + Fr(pir) * (head - pupd) / 8, Fr(pbs))
+                      and exact_or_far(a.size, lo + Fr(cir) * (head - lo_upd) / 8, cbs)
+                      and exact_or_far(a.size, hi + Fr(cir) * (head - hi_upd) / 8, cbs))
+            else:
+                ok = exact_or_far(a.size, level + Fr(cir) * (head - upd) / 8, cbs)
+            if not ok:
+                return
         if pir:
             g, plevel, waited = bucket_release(plevel, pupd, head, a.size, pir, Fr(pbs))
             pupd = g
@@ -184,7 +222,7 @@ def check_tr(net, cfg, res, tag, colours):
         if waited:
             res.nontrivial = True
         res.ev("C11.tr.time")
-        if Fr(a.dep.t) != g:
+        if (Fr(a.dep.t) != g) if not approx else (abs(a.dep.t - float(g)) > 1e-9 * max(1.0, float(g))):
             res.bad("C11.tr.time", "%s:released-%s" % (tag, "early" if Fr(a.dep.t) < g else "late"),
                     "packet %d size %d entered %r: released %r, reference %s" % (a.i, a.size, a.t, a.dep.t, g))
             return
@@ -203,11 +241,20 @@ def check_tr(net, cfg, res, tag, colours):
         if col == "green":
             greens.append((g, a.size))
         prev_rel = g
+        if approx:
+            # follow the observed instant (within tolerance), so that rounding does not accumulate in the reference
+            g = Fr(a.dep.t)
+            prev_rel = g
+            if pir:
+                pupd = g
+                lo_upd = g if waited else lo_upd
+            else:
+                upd = g
     for i in range(len(greens)):
         tot = 0
         for j in range(i, len(greens)):
             tot += greens[j][1]
             res.ev("C11.tr.conform")
-            if tot > max(cbs, greens[i][1]) + Fr(cir) * (greens[j][0] - greens[i][0]) / 8:
+            if tot > (max(cbs, greens[i][1]) + Fr(cir) * (greens[j][0] - greens[i][0]) / 8) * (1 + (Fr(1, 10 ** 9) if cfg.get("approx") else 0)):
                 res.bad("C11.tr.conform", tag + ":green-traffic-exceeds-CBS-plus-CIR", "green departures %d..%d: %s" % (i, j, greens[i:j + 1]))
                 return
